@@ -50,6 +50,21 @@ BUILT = {
          "Hundreds of thousands (quick) to millions (thorough) of integrals per run over all nine routines, real and complex, judged against closed-form values (polynomial x exp x trig mixtures, Gamma moments, Bessel series); class membership is decided by the harness's own rule sequences and never serves as the oracle. Held on the executions observed.",
          "Tolerance-proportional bound claimed only inside the reliability class (DESIGN.md C09); tabulated rule accuracy is C10's statement (tolerances the rows cannot resolve are out of class).",
          "DESIGN.md §4 C09"),
+ "C11": ("exploration",
+         "reference-model monitor: every operator form and multiplication path against exact (compensated) coefficient algebra; dft/idft against direct evaluation at roots of unity",
+         "Each generated operand pair (degrees 0..128, real and complex, sparse/dense/palindromic, tolerances straddling the leading terms) runs all owned/borrowed/assigning forms of + - *, negation and scalar operations through the scalar, linear and FFT paths and is compared coefficient-wise with a twice-precision convolution; degree, commutativity, pointwise agreement, dft values and idft round trip are checked. Held on the executions observed.",
+         "Rounding bounds K eps log2(N) |a||b| with K = 64 (products), 128 (dft), 64 (idft), calibrated >= 8x observed; the degree statement is read as order(a*b) <= order(a)+order(b) always, with equality when the exact leading coefficient exceeds tolerance + bound.",
+         "DESIGN.md §4 C11"),
+ "C12": ("exploration",
+         "reference-model monitor: quotient and remainder re-multiplied with compensated arithmetic against the dividend (backward error), degree and exact-multiple conditions",
+         "Thousands (quick) to hundreds of thousands (thorough) of divisions, real and complex, including exact multiples, higher-degree divisors, constant divisors and the zero polynomial; never a panic.",
+         "Tolerance > 0 throughout; exact-multiple remainders are compared with a conditioning-scaled bound computed by the harness.",
+         "DESIGN.md §4 C12"),
+ "C13": ("exploration",
+         "reference-model monitor over operation histories: a reference coefficient map is compared with get_coefficient(s)/order after every set/purge/arithmetic call; evaluation and calculus against double-double Horner and term-wise formulas",
+         "Random histories of 5-40 mutating calls (powers below, at and beyond the degree) checked after every operation, plus evaluation/derivative/antiderivative/integral consistency on polynomials of degree 0..30, real and complex.",
+         "Rounding bounds 8 n eps sum|c_k||x|^k; purge_leading's documented contract is asserted in addition to the property text.",
+         "DESIGN.md §4 C13"),
 }
 
 PENDING_REASON = "check not built yet in this commit (runtime monitor designed in DESIGN.md §4; will be claimed when its harness module lands)"
